@@ -14,13 +14,20 @@ histories for a failing input and reports the violation either way).
 namespace SaoVerif
 
 theorem C20_decision_skeleton_as_modelled :
-    Generated.Skel.x_node_keeper_hooks_go = Expected.Skel.x_node_keeper_hooks_go ∧
-    Generated.Skel.x_node_keeper_super_go = Expected.Skel.x_node_keeper_super_go ∧
-    Generated.Skel.x_node_keeper_msg_server_reset_go = Expected.Skel.x_node_keeper_msg_server_reset_go ∧
-    Generated.Skel.x_node_keeper_msg_server_add_vstorage_go = Expected.Skel.x_node_keeper_msg_server_add_vstorage_go ∧
-    Generated.Skel.x_node_keeper_msg_server_remove_vstorage_go = Expected.Skel.x_node_keeper_msg_server_remove_vstorage_go ∧
-    Generated.Skel.x_node_keeper_node_go = Expected.Skel.x_node_keeper_node_go ∧
-    Generated.Skel.app_app_go = Expected.Skel.app_app_go := by
+    [Generated.Skel.x_node_keeper_hooks_go,
+     Generated.Skel.x_node_keeper_super_go,
+     Generated.Skel.x_node_keeper_msg_server_reset_go,
+     Generated.Skel.x_node_keeper_msg_server_add_vstorage_go,
+     Generated.Skel.x_node_keeper_msg_server_remove_vstorage_go,
+     Generated.Skel.x_node_keeper_node_go,
+     Generated.Skel.app_app_go] =
+    [Expected.Skel.x_node_keeper_hooks_go,
+     Expected.Skel.x_node_keeper_super_go,
+     Expected.Skel.x_node_keeper_msg_server_reset_go,
+     Expected.Skel.x_node_keeper_msg_server_add_vstorage_go,
+     Expected.Skel.x_node_keeper_msg_server_remove_vstorage_go,
+     Expected.Skel.x_node_keeper_node_go,
+     Expected.Skel.app_app_go] := by
   decide +kernel
 
 end SaoVerif
